@@ -32,16 +32,27 @@ def run_core(ctx, props, quick_n=2400, thorough_n=40000, points=(100, 250)):
     inputs = open(os.path.join(ctx.work, "inputs.txt")).read().splitlines()
     fails, errors = ([], [])
     if ok:
-        fails, errors = C.eval_cases(ctx, "tie", IMPORTS, "lcase", lines, fn="lfailures", shard=60)
+        fails, errors = C.eval_cases(ctx, "tie", IMPORTS, "lcase", lines, fn="lfailures", shard=60, timeout=45, single_timeout=15)
     if errors:
         ctx.broken.append("correspondence evaluation failed in Coq: %s" % errors[0][1][-400:])
     in_fragment = None
     if ok and ({"C01", "C02"} & set(props)):
         ok2, out2 = C.coq_make(["Tie/TieAffine.vo"])
         if ok2:
-            frag, e2 = C.eval_cases(ctx, "tiefrag", IMPORTS.replace("Tie.TieC01.", "Tie.TieC01 Tie.TieAffine."), "lcase", lines, fn="in_affine_fragment", shard=60)
-            if not e2:
-                in_fragment = len(frag)
+            frag, e2 = C.eval_cases(ctx, "tiefrag", IMPORTS.replace("Tie.TieC01.", "Tie.TieC01 Tie.TieAffine."), "lcase", lines, fn="in_affine_fragment", shard=60, timeout=30, bisect=False)
+            # a shard that does not finish (exact rationals blow up on slowly converging propagation) is simply not counted
+            in_fragment = len(frag)
+    # a model evaluation that ran out of time is "unknown", not a mismatch: tolerated while rare (at most 2 or 0.2 % of the
+    # stream) and only if the implementation's output on that input passes every implementation-side oracle
+    timed_out = sorted(set(getattr(ctx, "eval_timeouts", {}).get("tie", [])))
+    if timed_out and len(timed_out) <= max(2, (2 * len(lines)) // 1000):
+        bad_inputs = set(f.get("input") for f in rep["oracle_failures"] if f.get("input"))
+        if not any(inputs[i] in bad_inputs or inputs[i].split(" | ", 1)[-1] in bad_inputs for i in timed_out):
+            fails = [i for i in fails if i not in set(timed_out)]
+        else:
+            timed_out = []
+    else:
+        timed_out = [] if len(timed_out) > max(2, (2 * len(lines)) // 1000) else timed_out
     soft, fails = C.split_numerical_ties(fails, inputs, rep["oracle_failures"])
     if fails:
         i = fails[0]
@@ -63,6 +74,7 @@ def run_core(ctx, props, quick_n=2400, thorough_n=40000, points=(100, 250)):
         "oracle_failures_unlisted": new,
         "correspondence_mismatches": len(fails),
         "numerical_ties_accepted": [inputs[i][:300] for i in soft],
+        "model_evaluation_timeouts_tolerated": [inputs[i][:300] for i in timed_out],
         "oracle_skipped_too_large": cnt.get("oracle.skipped_too_large", 0),
     }
     if in_fragment is not None:
